@@ -614,6 +614,11 @@ func runHistory(tb drv.TB, rec *drv.Rec, sub string, h history, or histOracles) 
 		}
 		// ---- C07 monitor
 		if or.Monitor != nil {
+			if op.K == "purge" { // purge sends its probes from a goroutine it starts: give it a moment
+				for i := 0; i < 4; i++ {
+					time.Sleep(250 * time.Microsecond)
+				}
+			}
 			if sig, msg := or.Monitor(step, op, conn.Take()); sig != "" {
 				violate(step, sig, "%s", msg)
 				return
